@@ -38,7 +38,7 @@ def check_for_vertical_overflow(
     height: float | int,
     max_text_width: float | int,
 ) -> list[str]:
-    overflow = ""
+    overflow: str | None = None
     lines_to_render = []
     text_height = 0.0
     for i, (line, (_, line_height)) in enumerate(
@@ -51,7 +51,7 @@ def check_for_vertical_overflow(
         text_height += line_height
         lines_to_render.append(line)
 
-    if overflow:
+    if overflow is not None:
         line_width = helpers.extent_func(overflow + "...")[0]
         if line_width < max_text_width:
             overflow += "..."
